@@ -10,15 +10,15 @@ from pv.ref import base as R, joins as RJ
 ID = "C06"
 LEVEL = "exploration"
 RULE = ("Hypothesis draws two tables whose key columns come from one small pool (None, equal values of different numeric "
-        "types, text/bytes, nested sequences, duplicates on both sides), ragged rows (rectangular for antijoin), either "
-        "side possibly header-only, key given as key= (single/compound), lkey/rkey with different names, or natural; "
+        "types, text/bytes, nested sequences, duplicates on both sides), ragged rows, either "
+        "side possibly header-only, buffersize None or 1-3 (chunked sorts), key given as key= (single/compound), lkey/rkey with different names, or natural; "
         "lprefix/rprefix; missing in {None,'M'}. Oracle: nested-loop reference join on the squared-up inputs: header, "
         "multiset of data rows, and output keys non-decreasing under the independent ordering; crossjoin of 2-3 tables "
         "vs itertools.product as a sequence. Non-trivial = both sides non-empty with >=1 matching and >=1 unmatched key, "
         "or one side empty and a None key on the other. Distinct by digest.")
 ASSUMPTIONS = [
     "every table has a header row (an entirely empty table is outside the statement)",
-    "antijoin gets rectangular inputs (it does not square up)",
+    "antijoin does not pad its output rows (it does not square up); an absent key cell is read as None, as squaring up would give",
     "within-group row order is not asserted (the statement says grouped in ascending key order)",
 ]
 
@@ -43,7 +43,7 @@ def join_case(draw, tier):
     p = draw(gen.pool(KEYCELL, 2, 5))
     kc = st.sampled_from(p)
     vc = st.one_of(st.sampled_from(p), st.integers(0, 3))
-    ragged = fn != "antijoin" and draw(st.booleans())
+    ragged = draw(st.booleans())
     lempty = draw(st.integers(0, 7)) == 0
     rempty = draw(st.integers(0, 7)) == 0
     L = draw(gen.table(list(lh), [kc if f in lk else vc for f in lh], max_rows=0 if lempty else maxrows, ragged=ragged))
@@ -59,6 +59,8 @@ def join_case(draw, tier):
     if fn != "antijoin" and draw(st.integers(0, 3)) == 0:
         c["lprefix"] = draw(st.sampled_from(["l_", "", 1]))
         c["rprefix"] = draw(st.sampled_from(["r_", None]))
+    # the inputs are sorted via temporary-file chunks as well: "first partner" and the row multiset must not depend on it
+    c["buffersize"] = draw(st.sampled_from([None, None, 1, 2, 3]))
     return c
 
 
@@ -69,11 +71,14 @@ def check_join(case, ctx):
     if kw.get("rprefix", 0) is None:
         kw.pop("rprefix")
     refkw = dict(kw)
+    if case.get("buffersize") is not None:
+        kw["buffersize"] = case["buffersize"]
+        kw["tempdir"] = ctx.tmpdir()
     hdr, exp, lk = RJ.ref_join(L, Rt, kind, squareup=(kind != "anti"), **refkw)
     # non-triviality
-    sqm = kw.get("missing")
+    sqm = refkw.get("missing")
     lkeys = [R.keytuple(r, lk) for r in R.square(L, sqm)[1:]]
-    _, rkidx = RJ._keys(R.square(L, sqm), R.square(Rt, sqm), kw.get("key"), kw.get("lkey"), kw.get("rkey"))
+    _, rkidx = RJ._keys(R.square(L, sqm), R.square(Rt, sqm), refkw.get("key"), refkw.get("lkey"), refkw.get("rkey"))
     rkeys = [R.keytuple(r, rkidx) for r in R.square(Rt, sqm)[1:]]
     matched = any(RJ.keyeq(a, b) for a in lkeys for b in rkeys)
     unmatched = any(not any(RJ.keyeq(a, b) for b in rkeys) for a in lkeys) or any(not any(RJ.keyeq(a, b) for a in lkeys) for b in rkeys)
